@@ -15,7 +15,7 @@ assert demos, 'no demo'
 demo=demos[0]
 head=open(demo).read()[:3000]
 place=None
-m2=re.search(r'^\s*//\s*(go (?:test|run) [^\n]+)',head,re.M)
+m2=re.search(r'^\s*//[^\n]*?\b(go (?:test|run) [^\n]+)',head,re.M)
 cmd=m2.group(1).strip() if m2 else None
 if cmd:
     mm=re.search(r'(\./[\w/.-]+?)/?(?:\s|$)',cmd[::-1][::-1].split(' -run')[-1] if False else cmd)
